@@ -33,6 +33,8 @@ type FS struct {
 	n       int
 	crashAt int // 0 = never
 	crashed bool
+	failAt  int // 0 = never: mutating operation k is not executed and returns an I/O error (once)
+	failed  bool
 	killAt  int  // 0 = never: "process killed" just before mutating operation k
 	killed  bool // from then on nothing reaches the file system any more (but nothing is lost either)
 	phase   string
@@ -74,6 +76,29 @@ func (f *FS) KillAt(k int) {
 	f.killAt = k
 	f.mu.Unlock()
 }
+
+// FailAt arms the third fault: mutating operation k is not carried out and reports an I/O error;
+// everything before and after it works (a transient device / quota / permission error).
+func (f *FS) FailAt(k int) {
+	f.mu.Lock()
+	f.failAt, f.failed = k, false
+	f.mu.Unlock()
+}
+
+// Failed tells whether the error trigger has fired; FailOp returns the operation that failed.
+func (f *FS) Failed() bool { f.mu.Lock(); defer f.mu.Unlock(); return f.failed }
+
+func (f *FS) FailOp() Op {
+	f.mu.Lock()
+	defer f.mu.Unlock()
+	if f.failAt > 0 && f.failAt <= len(f.log) {
+		return f.log[f.failAt-1]
+	}
+	return Op{}
+}
+
+// ErrInjected is what the failing operation returns.
+var ErrInjected = fmt.Errorf("input/output error (injected)")
 
 // Killed tells whether the kill trigger has fired.
 func (f *FS) Killed() bool { f.mu.Lock(); defer f.mu.Unlock(); return f.killed }
@@ -231,7 +256,7 @@ func Classify(p string) string {
 	return "other:" + reNum.ReplaceAllString(base, "N")
 }
 
-func (f *FS) op(kind, path string) {
+func (f *FS) op(kind, path string) error {
 	f.mu.Lock()
 	f.n++
 	o := Op{N: f.n, Kind: kind, Class: Classify(path), Phase: f.phase, Path: path}
@@ -245,6 +270,10 @@ func (f *FS) op(kind, path string) {
 	kill := f.killAt > 0 && f.n >= f.killAt && !f.killed
 	if kill {
 		f.killed = true
+	}
+	fail := f.failAt > 0 && f.n == f.failAt && !f.failed
+	if fail {
+		f.failed = true
 	}
 	d := f.delay
 	f.mu.Unlock()
@@ -261,12 +290,18 @@ func (f *FS) op(kind, path string) {
 	if d != nil {
 		d(o)
 	}
+	if fail {
+		return ErrInjected
+	}
+	return nil
 }
 
 // vfs.FS ----------------------------------------------------------------------------------
 
 func (f *FS) Create(name string) (vfs.File, error) {
-	f.op("create", name)
+	if err := f.op("create", name); err != nil {
+		return nil, err
+	}
 	fl, err := f.mem.Create(name)
 	if err != nil {
 		return nil, err
@@ -275,7 +310,9 @@ func (f *FS) Create(name string) (vfs.File, error) {
 }
 
 func (f *FS) Link(oldname, newname string) error {
-	f.op("link", newname)
+	if err := f.op("link", newname); err != nil {
+		return err
+	}
 	return f.mem.Link(oldname, newname)
 }
 
@@ -296,22 +333,30 @@ func (f *FS) OpenDir(name string) (vfs.File, error) {
 }
 
 func (f *FS) Remove(name string) error {
-	f.op("remove", name)
+	if err := f.op("remove", name); err != nil {
+		return err
+	}
 	return f.mem.Remove(name)
 }
 
 func (f *FS) RemoveAll(name string) error {
-	f.op("removeall", name)
+	if err := f.op("removeall", name); err != nil {
+		return err
+	}
 	return f.mem.RemoveAll(name)
 }
 
 func (f *FS) Rename(oldname, newname string) error {
-	f.op("rename", newname)
+	if err := f.op("rename", newname); err != nil {
+		return err
+	}
 	return f.mem.Rename(oldname, newname)
 }
 
 func (f *FS) ReuseForWrite(oldname, newname string) (vfs.File, error) {
-	f.op("reuse", newname)
+	if err := f.op("reuse", newname); err != nil {
+		return nil, err
+	}
 	fl, err := f.mem.ReuseForWrite(oldname, newname)
 	if err != nil {
 		return nil, err
@@ -320,7 +365,9 @@ func (f *FS) ReuseForWrite(oldname, newname string) (vfs.File, error) {
 }
 
 func (f *FS) MkdirAll(dir string, perm os.FileMode) error {
-	f.op("mkdirall", dir)
+	if err := f.op("mkdirall", dir); err != nil {
+		return err
+	}
 	return f.mem.MkdirAll(dir, perm)
 }
 
@@ -349,20 +396,22 @@ type file struct {
 }
 
 func (fl *file) Write(p []byte) (int, error) {
-	fl.fs.op("write", fl.path)
+	if err := fl.fs.op("write", fl.path); err != nil {
+		return 0, err
+	}
 	return fl.File.Write(p)
 }
 
 func (fl *file) Sync() error {
+	kind := "sync"
 	if fl.dir {
-		fl.fs.op("syncdir", fl.path)
-	} else {
+		kind = "syncdir"
+	} else if st, err := fl.File.Stat(); err == nil && st.IsDir() {
 		// a directory opened through Open() is also synced through this path
-		if st, err := fl.File.Stat(); err == nil && st.IsDir() {
-			fl.fs.op("syncdir", fl.path)
-		} else {
-			fl.fs.op("sync", fl.path)
-		}
+		kind = "syncdir"
+	}
+	if err := fl.fs.op(kind, fl.path); err != nil {
+		return err
 	}
 	return fl.File.Sync()
 }
